@@ -83,6 +83,11 @@ let rec gexpr_of (s : sexp) : q gexpr = match s with
   | L [A "gangles"; l] -> GAngles (list_of (pair_of q_of) l)
   | _ -> failwith "gexpr_of"
 
+let gen_of = function
+  | "cos" -> KCos | "sin" -> KSin | "invert" -> KInv | "sign" -> KSign | "thresh" -> KThresh
+  | "phase_est" -> KPhaseEst | "rect" -> KRect | "linamp" -> KLinAmp | "gibbs" -> KGibbs
+  | "efilter" -> KEfilter | "relu" -> KRelu | "softplus" -> KSoftplus | _ -> failwith "gen_of"
+
 let s_lpoly (p : q lpoly) =
   "(" ^ sz p.lp_dmin ^ " " ^ sb p.lp_isz ^ " " ^ sl sq p.lp_coefs ^ ")"
 let s_lalg (g : q lalg) = "(" ^ s_lpoly g.la_I ^ " " ^ s_lpoly g.la_X ^ ")"
@@ -146,6 +151,17 @@ let handle (s : sexp) : string = match s with
   | L [A "imtarget"; odd; red; c; tol] ->
       let red = list_of q_of red and c = list_of q_of c in
       "(" ^ sb (check_im_target (bool_of odd) red c (q_of tol)) ^ " " ^ so sz (im_target_norm (bool_of odd) red c) ^ ")"
+  | L [A "oppzero"; odd; l] -> sb (opp_zero_q (bool_of odd) (list_of q_of l))
+  | L [A "geninfo"; A name; degree] ->
+      let g = gen_of name in
+      "(" ^ sb (gen_odd g) ^ " " ^ sb (gen_takes_degree g) ^ " " ^ sb (degree_guard g (z_of degree)) ^ ")"
+  | L [A "scaledclose"; b; u; s; tol] -> sb (scaled_close (list_of q_of b) (list_of q_of u) (q_of s) (q_of tol))
+  | L [A "samebases"; c; m; tol] -> sb (same_poly_bases (list_of q_of c) (list_of q_of m) (q_of tol))
+  | L [A "sup"; mono; c; cells; m] ->
+      let cells = list_of (pair_of q_of) cells and c = list_of q_of c in
+      sb (if bool_of mono then check_sup_mono c cells (q_of m) else check_sup c cells (q_of m))
+  | L [A "exceeds"; c; theta; m] -> sb (check_exceeds (list_of q_of c) (q_of theta) (q_of m))
+  | L [A "p2cq"; p] -> sl sq (p2c_q false (list_of q_of p))
   | L [A "scale"] -> sz scaleZ
   | _ -> failwith "unknown command"
 
